@@ -299,16 +299,16 @@ impl GrammarBuilder {
                     rhs: production
                         .assignments
                         .into_iter()
-                        // Remove EMPTY from production RHS
+                        // Remove EMPTY from production RHS, also when it
+                        // is given as the right-hand side of an assignment.
                         .filter(|assignment| {
-                            use rustemo_actions::Assignment;
-                            !matches!(assignment, Assignment::GrammarSymbolRef(
-                                        GrammarSymbolRef {
-                                            gsymbol:
-                                                Some(GrammarSymbol::Name(name)),
-                                            ..
-                                        },
-                                    ) if name.as_ref() == "EMPTY")
+                            use rustemo_actions::Assignment::*;
+                            let gsymref = match assignment {
+                                PlainAssignment(assign) | BoolAssignment(assign) => &assign.gsymref,
+                                GrammarSymbolRef(gsymref) => gsymref,
+                            };
+                            !matches!(&gsymref.gsymbol,
+                                      Some(GrammarSymbol::Name(name)) if name.as_ref() == "EMPTY")
                         })
                         // Map all RHS elements to Assignments
                         .map(|assignment| -> Result<ResolvingAssignment> {
